@@ -17,6 +17,7 @@ Decided clauses (necessary conditions, see DESIGN.md §4 C01):
 from __future__ import annotations
 
 import ast
+import re
 from typing import Dict, List, Optional, Set, Tuple
 
 from engine.src import ClassInfo, FunctionInfo, own_nodes, own_nodes_incl_lambda, AnalysisError, src_of
@@ -841,7 +842,12 @@ def check_d(ck, repo):
             bad = []
             for var, idx, kv, st in d.records:
                 if isinstance(kv, tuple) and kv and kv[0] == "?":
-                    bad.append((st, f"cannot evaluate decoded key: {kv[1]}", True))
+                    m_ = re.search(r"\.replace\(([^,()]+), *(''|\"\")\)$", str(kv[1]))
+                    if m_:
+                        # str.replace without a count removes every occurrence, not only the leading one
+                        bad.append((st, f"the prefix is removed with `{str(kv[1]).replace('call ', '')}`, which deletes every occurrence of it: a sub-key that contains the prefix again (a pipeline step or a nested wrapper of the same name) is decoded to another name than the one get_params advertised", False))
+                    else:
+                        bad.append((st, f"cannot evaluate decoded key: {kv[1]}", True))
                     continue
                 if kv != absstr.mk(Rest("rest")):
                     bad.append((st, f"decoded sub-key is {kv!r}, expected the original parameter name <rest>", False))
